@@ -76,6 +76,11 @@ def kind_of(n):
   return 'other:' + q
 
 
+def _is_word_ptr(n):
+  q = _ty(n)
+  return q.rstrip(' *').strip() in ('long', 'std::int64_t', 'long long', 'int64_t')
+
+
 class Lower:
   """Lowers one function/method definition."""
 
@@ -117,7 +122,7 @@ class Lower:
         init = v.get('inner', [None])[0] if v.get('inner') else None
         if init is None:
           raise Unsupported('uninitialised local %s' % v['name'])
-        if kind_of(v) == 'ptr':
+        if kind_of(v) == 'ptr' and _is_word_ptr(v):
           self.ptrs[v['name']] = self.rowref(init)
           continue
         pre, e = self.expr_with_effects(init)
@@ -145,6 +150,18 @@ class Lower:
       out.append(pad + 'for %s in range(%s, %s):' % (var, lo, hi))
       b = self.stmt(body, ind + 1)
       out.extend(b or [pad + '  pass'])
+      return out
+    if k == 'CXXForRangeStmt':
+      # for (T x : range)  ->  for x in range   (range: a vector-valued expression; begin/end/++/* are the library's)
+      inner = n['inner']
+      decls = [c for c in inner if c.get('kind') == 'DeclStmt']
+      if len(decls) != 4:
+        raise Unsupported('range-for shape')
+      rng = decls[0]['inner'][0]
+      loopvar = decls[3]['inner'][0]
+      body = inner[-1]
+      out = [pad + 'for %s in %s:' % (loopvar['name'], self.expr(rng['inner'][0]))]
+      out.extend(self.stmt(body, ind + 1) or [pad + '  pass'])
       return out
     if k == 'IfStmt':
       inner = n['inner']
@@ -339,6 +356,8 @@ class Lower:
       opname = callee.get('referencedDecl', {}).get('name')
       if opname == 'operator[]':
         return '%s[%s]' % (self.expr(n['inner'][1]), self.expr(n['inner'][2]))
+      if opname == 'operator->':
+        return self.expr(n['inner'][1])     # unique_ptr<T>::operator-> : the owned object (A-MEM)
       raise Unsupported('operator call %s' % opname)
     if k == 'ArraySubscriptExpr':
       return '%s[%s]' % (self.expr(n['inner'][0]), self.expr(n['inner'][1]))
